@@ -36,10 +36,12 @@ Definition RI (n : node) (c : ctx) (_ : persistent) : Prop :=
   (c_cached c = true <-> c_state c = XHit) /\
   (n <> NLog -> c_resp c = None) /\
   c_state c = (match n with NHit => XHit | NMiss => XMiss | _ => rbranch (c_trace c) end) /\
-  (n = NLog -> c_resp c = Some (c_state c)).
+  (n = NLog -> exists h, c_resp c = Some (c_state c, h) /\ (0 < h -> c_state c = XHit)) /\
+  (n = NRecv -> c_hit c = None) /\
+  (forall h, c_hit c = Some h -> c_state c = XHit).
 Definition RF (c : ctx) (_ : persistent) (err : bool) : Prop :=
   (c_cached c = true <-> c_state c = XHit) /\
-  (forall x, c_resp c = Some x -> x = c_state c) /\
+  (forall x h, c_resp c = Some (x, h) -> x = c_state c /\ (0 < h -> c_state c = XHit)) /\
   c_state c = rbranch (c_trace c) /\
   (err = false -> c_resp c <> None).
 
@@ -48,15 +50,22 @@ Lemma step_report orc q n c p c' p' nx :
   RI n c p -> step orc q n c p = (c', p', nx) ->
   match nx with Goto n' => RI n' c' p' | Done => RF c' p' false | Fail => RF c' p' true end.
 Proof.
-  intros Hb (H1 & H2 & H3 & H4) H. unfold RI, RF.
+  intros Hb (H1 & H2 & H3 & H4 & H5 & H6) H. unfold RI, RF.
   destruct n; step_cases H; psimpl;
     try match goal with E : negb (q_backend q) = true |- _ => rewrite Hb in E; discriminate E end;
     cbn [rbranch] in *;
+    repeat match goal with E : Some _ = Some _ |- _ => inversion E; subst; clear E end;
+    try (rewrite (H5 eq_refl) in *);
+    try (destruct (H4 eq_refl) as (h0 & H4a & H4b));
     repeat split; psimpl; cbn [rbranch];
       try discriminate; try congruence; try tauto; try (intuition congruence);
-      try (intros ? Hx; inversion Hx; subst; congruence);
-      try (intros ? Hx; rewrite H2 in Hx by discriminate; discriminate Hx);
-      try (rewrite H2 by discriminate; reflexivity).
+      try (intros ? ? Hx; inversion Hx; subst; split; [congruence | intros; lia || auto]);
+      try (intros ? ? Hx; rewrite H2 in Hx by discriminate; discriminate Hx);
+      try (rewrite H2 by discriminate; reflexivity);
+      try (eexists; split; [reflexivity|]; destruct (c_hit c) eqn:?; [intros _; eauto | intros; lia]);
+      try (match goal with Hx : Some (_, _) = Some (_, _) |- _ => inversion Hx; subst; clear Hx end;
+           destruct (c_hit c) eqn:?; [intros _; eauto | intros; lia]);
+      try (rewrite H4a in *; match goal with Hx : Some (_, _) = Some (_, _) |- _ => inversion Hx; subst; exact H4b end).
 Qed.
 
 Lemma report_faithful orc p q rep p' :
@@ -64,15 +73,20 @@ Lemma report_faithful orc p q rep p' :
   run_request orc p q = OK (rep, p') ->
   (r_cached rep = true <-> last_branch (r_trace rep) XNone = XHit) /\
   (forall x, r_xcache rep = Some x -> x = last_branch (r_trace rep) XNone) /\
+  (forall h, r_xhits rep = Some h -> 0 < h -> last_branch (r_trace rep) XNone = XHit) /\
   (r_error rep = false -> r_xcache rep <> None).
 Proof.
   intros Hb. unfold run_request.
   destruct (run sm_fuel orc q NRecv ctx0 p) as [[[c p1] e]| | |] eqn:E; try discriminate.
-  intros H; inversion H; subst; cbn [r_trace r_cached r_xcache r_error].
+  intros H; inversion H; subst; cbn [r_trace r_cached r_xcache r_xhits r_error].
   assert (HF : RF c p' e).
   { apply (run_inv RI RF orc q (fun n c p c' p' nx => step_report orc q n c p c' p' nx Hb)) with (2 := E).
     unfold RI. cbn. repeat split; auto; discriminate. }
-  destruct HF as (H1 & H2 & H3 & H4). rewrite <- rbranch_last, <- H3. auto.
+  destruct HF as (H1 & H2 & H3 & H4). rewrite <- rbranch_last, <- H3.
+  split; [exact H1|]. split; [|split].
+  - intros x Hx. destruct (c_resp c) as [[x' h']|]; [|discriminate]. inversion Hx; subst. apply (H2 x h' eq_refl).
+  - intros h Hx Hh. destruct (c_resp c) as [[x' h']|]; [|discriminate]. inversion Hx; subst. apply (H2 x' h eq_refl). exact Hh.
+  - intros He Hn. apply (H4 He). destruct (c_resp c); [discriminate|reflexivity].
 Qed.
 
 (* ---- persistence ---- *)
@@ -115,22 +129,43 @@ Proof.
   intros H; inversion H; subst. exists rs1, p1, r, p2, rs2. auto.
 Qed.
 
-(* what a request stores is what the next one finds: a cacheable answer with a positive TTL,
-   fetched without restart, is an unexpired object for every later clock reading up to its expiry *)
-Lemma fetch_stores orc q c p c' p' nx cacheable ttl :
-  process_fetch orc q c p = (c', p', nx) -> run_sub Fetch (c_restarts c) (orc Fetch (c_restarts c)) <> None ->
-  q_bresp q (c_restarts c) = Some (cacheable, ttl) -> cacheable = true -> (0 < ttl)%Z ->
+(* what a request stores is what the next one finds: a cacheable answer with a positive TTL, fetched
+   for a miss (not through vcl_pass) and accepted by vcl_fetch (deliver / deliver_stale / falling off
+   the end), is an unexpired object for every later clock reading up to its expiry *)
+Definition fetch_accepts (st : option state) : Prop :=
+  st = Some NONE \/ st = Some (St SDeliver) \/ st = Some (St SDeliverStale).
+
+Lemma fetch_stores orc q c p c' p' nx ttl :
+  process_fetch orc q c p = (c', p', nx) -> c_pass c = false ->
+  fetch_accepts (run_sub Fetch (c_restarts c) (orc Fetch (c_restarts c))) ->
+  q_bresp q (c_restarts c) = Some (true, ttl) -> (0 < ttl)%Z ->
   forall now', (now' <= q_now q + ttl)%Z ->
   stored_fresh now' (q_hash q (c_restarts c)) (p_cache p') = true.
 Proof.
-  intros H Hs Hq -> Ht now' Hn. unfold process_fetch in H. rewrite Hq in H.
+  intros H Hp Hs Hq Ht now' Hn. unfold process_fetch in H. rewrite Hq, Hp in H.
   unfold call in H. cbn [scope_of] in H.
-  destruct (run_sub Fetch (c_restarts (set_beresp c)) (orc Fetch (c_restarts (set_beresp c)))) as [st|] eqn:E;
-    [|exfalso; apply Hs; exact E].
   assert (Hz : (0 <? ttl)%Z = true) by (apply Z.ltb_lt; exact Ht).
-  rewrite Hz in H. cbn [andb] in H.
-  assert (Hp : p_cache p' = cache_store (q_hash q (c_restarts c)) (mkItem (q_now q + ttl) (q_now q) 0) (p_cache p)).
-  { unfold do_restart in H. dmatch H; injection H as ? ? ?; subst; reflexivity. }
-  rewrite Hp. unfold stored_fresh, cache_store. cbn [cache_find]. rewrite N.eqb_refl. cbn [expires].
+  rewrite Hz in H. change (c_restarts (set_beresp c)) with (c_restarts c) in H.
+  assert (Hc : p_cache p' = cache_store (q_hash q (c_restarts c)) (mkItem (q_now q + ttl) (q_now q) 0) (p_cache p)).
+  { destruct Hs as [Hs|[Hs|Hs]]; rewrite Hs in H; cbn in H; inversion H; reflexivity. }
+  rewrite Hc. unfold stored_fresh, cache_store. cbn [cache_find]. rewrite N.eqb_refl. cbn [expires].
   apply negb_true_iff. apply Z.ltb_ge. exact Hn.
+Qed.
+
+(* ... and nothing else is: a round that went through vcl_pass, or whose vcl_fetch ended with pass,
+   hit_for_pass, error, restart or anything undocumented, leaves the cache as it was *)
+Lemma fetch_does_not_store orc q c p c' p' nx :
+  process_fetch orc q c p = (c', p', nx) ->
+  c_pass c = true \/ ~ fetch_accepts (run_sub Fetch (c_restarts c) (orc Fetch (c_restarts c))) ->
+  p_cache p' = p_cache p.
+Proof.
+  intros H Hd. unfold process_fetch in H.
+  destruct (q_bresp q (c_restarts c)) as [[cacheable ttl]|]; [|inversion H; reflexivity].
+  unfold call in H. cbn [scope_of] in H. change (c_restarts (set_beresp c)) with (c_restarts c) in H.
+  destruct (run_sub Fetch (c_restarts c) (orc Fetch (c_restarts c))) as [st|] eqn:E; [|inversion H; reflexivity].
+  destruct Hd as [Hp|Hn].
+  - rewrite Hp in H. cbn [negb andb] in H. unfold do_restart in H. dmatch H; inversion H; reflexivity.
+  - assert (Ha : match st with NONE | St SDeliver | St SDeliverStale => true | _ => false end = false).
+    { destruct st as [| |[]]; try reflexivity; exfalso; apply Hn; unfold fetch_accepts; auto. }
+    rewrite Ha, andb_false_r in H. cbn [andb] in H. unfold do_restart in H. dmatch H; inversion H; reflexivity.
 Qed.
